@@ -104,10 +104,16 @@ func Dial(port int, tag string) *Conn {
 	cli := &Conn{Name: tag + ".client", rd: b2a, wr: a2b, Tag: tag}
 	srv := &Conn{Name: tag + ".server", rd: a2b, wr: b2a, Tag: tag}
 	cli.peer, srv.peer = srv, cli
+	if OnDial != nil {
+		OnDial(cli, srv)
+	}
 	l.pending = append(l.pending, srv)
 	n.Conns = append(n.Conns, cli, srv)
 	return cli
 }
+
+// OnDial, if set by a driver, sees every new connection pair (to install filters on its pipes).
+var OnDial func(cli, srv *Conn)
 
 // NetConns lists every connection end created in this execution.
 func NetConns() []*Conn {
